@@ -1,5 +1,6 @@
 import MypyVerif.Proofs.FixedWidth
 import MypyVerif.Proofs.FloatConv
+import MypyVerif.Gen.IrOps
 /-!
 # C15 — compiled numeric primitives compute exactly what Python computes
 
@@ -605,6 +606,130 @@ theorem fixed_to_int_spec :
 example : intToNarrow 8 false 510#64 = .fast 255#8 := by decide          -- u8(255)
 example : intToNarrow 8 false 512#64 = .raise "ValueError" 239#8 := by decide   -- u8(256)
 example : intToNarrow 16 true 18446744073709486080#64 = .fast 32768#16 := by decide  -- i16(-32768)
+
+/-! ## IR ties: the final mypyc IR of the one-operation functions (`Gen/IrOps.lean`, regenerated from the checked
+tree) *is* the hand model of the lowering, resp. the translated C helper -/
+
+/-- the IR of `a < b` … on two `int`s *is* `compare_tagged` with the table row of the operator -/
+theorem ir_compare (l r : BitVec 64) : ∀ row ∈ intComparisonOpMapping,
+    (row.1 = "<" → IrOps.lt_int l r = compareTagged row l r) ∧
+    (row.1 = "<=" → IrOps.le_int l r = compareTagged row l r) ∧
+    (row.1 = ">" → IrOps.gt_int l r = compareTagged row l r) ∧
+    (row.1 = ">=" → IrOps.ge_int l r = compareTagged row l r) ∧
+    (row.1 = "==" → IrOps.eq_int l r = compareTagged row l r) ∧
+    (row.1 = "!=" → IrOps.ne_int l r = compareTagged row l r) := by
+  intro row hrow
+  simp only [intComparisonOpMapping, List.mem_cons, List.mem_nil_iff, or_false] at hrow
+  rcases hrow with h | h | h | h | h | h <;> subst h <;>
+    simp [compareTagged, isLongWord, cmpVariant, IrOps.lt_int, IrOps.le_int, IrOps.gt_int, IrOps.ge_int,
+      IrOps.eq_int, IrOps.ne_int]
+
+theorem ir_i64_ops (a b : BitVec 64) :
+    IrOps.add_i64 a b = .fast (intOp true .add a b) ∧ IrOps.sub_i64 a b = .fast (intOp true .sub a b) ∧
+    IrOps.mul_i64 a b = .fast (intOp true .mul a b) ∧ IrOps.and__i64 a b = .fast (intOp true .and a b) ∧
+    IrOps.or__i64 a b = .fast (intOp true .or a b) ∧ IrOps.xor_i64 a b = .fast (intOp true .xor a b) ∧
+    IrOps.lsh_i64 a b = .fast (intOp true .shl a b) ∧ IrOps.rsh_i64 a b = .fast (intOp true .shr a b) ∧
+    IrOps.neg_i64 a = .fast (FixedWidth.neg a) ∧ IrOps.inv_i64 a = .fast (invert a) ∧
+    IrOps.lt_i64 a b = .fast (BitVec.slt a b) ∧ IrOps.eq_i64 a b = .fast (a == b) := by
+  refine ⟨rfl, rfl, rfl, rfl, rfl, rfl, rfl, rfl, rfl, ?_, rfl, rfl⟩
+  simp [IrOps.inv_i64, invert]
+
+theorem ir_fdiv_i64 (a b : BitVec 64) : IrOps.fdiv_i64 a b = CPyInt64_Divide a b := by
+  unfold IrOps.fdiv_i64
+  rw [int64_divide_eq]
+  by_cases hz : b.toInt = 0
+  · simp [hz]
+  · by_cases ho : b.toInt = -1 ∧ a.toInt = -9223372036854775808
+    · simp [hz, ho]
+    · simp [hz, ho]
+
+theorem ir_mod_i64 (a b : BitVec 64) : IrOps.mod_i64 a b = CPyInt64_Remainder a b := by
+  unfold IrOps.mod_i64
+  rw [int64_remainder_eq]
+  by_cases hz : b.toInt = 0
+  · simp [hz]
+  · simp [hz]
+
+theorem ir_inline_divide (a : BitVec 64) :
+    IrOps.fdiv_i64_c3 a = .fast (inlineDivide a 3#64) ∧ IrOps.fdiv_i64_cm3 a = .fast (inlineDivide a (-3#64)) ∧
+    IrOps.mod_i64_c3 a = .fast (inlineMod a 3#64) ∧ IrOps.mod_i64_cm3 a = .fast (inlineMod a (-3#64)) := by
+  have e : (-3#64 : BitVec 64) = 18446744073709551613#64 := by decide
+  rw [e]
+  refine ⟨?_, ?_, ?_, ?_⟩ <;>
+    simp only [IrOps.fdiv_i64_c3, IrOps.fdiv_i64_cm3, IrOps.mod_i64_c3, IrOps.mod_i64_cm3, inlineDivide, inlineMod,
+      apply_ite Res.fast]
+
+theorem ir_conv (a : BitVec 64) :
+    IrOps.conv_i64 a = intToI64 a ∧ IrOps.conv_i32 a = intToNarrow 32 true a ∧
+    IrOps.conv_i16 a = intToNarrow 16 true a ∧ IrOps.conv_u8 a = intToNarrow 8 false a := by
+  have e1 : BitVec.ofInt 64 (2 * ((2 ^ (32 - 1) : Nat) : Int)) = 4294967296#64 := by decide
+  have e2 : BitVec.ofInt 64 (2 * -((2 ^ (32 - 1) : Nat) : Int)) = 18446744069414584320#64 := by decide
+  have e3 : BitVec.ofInt 64 (2 * ((2 ^ (16 - 1) : Nat) : Int)) = 65536#64 := by decide
+  have e4 : BitVec.ofInt 64 (2 * -((2 ^ (16 - 1) : Nat) : Int)) = 18446744073709486080#64 := by decide
+  have e5 : BitVec.ofInt 64 (2 * ((2 ^ 8 : Nat) : Int)) = 512#64 := by decide
+  have e6 : BitVec.ofInt 64 (2 * (0 : Int)) = 0#64 := by decide
+  have r1 : errValue 32 true = 4294967183#32 := by decide
+  have r2 : errValue 16 true = 65423#16 := by decide
+  have r3 : errValue 8 false = 239#8 := by decide
+  refine ⟨rfl, ?_, ?_, ?_⟩
+  · simp only [IrOps.conv_i32, intToNarrow, if_true, e1, e2, r1]
+  · simp only [IrOps.conv_i16, intToNarrow, if_true, e3, e4, r2]
+  · simp only [IrOps.conv_u8, intToNarrow, Bool.false_eq_true, if_false, e5, e6, r3]
+
+theorem ir_back (a : BitVec 64) (b : BitVec 32) (c : BitVec 16) (d : BitVec 8) :
+    IrOps.back_i64 a = i64ToInt a ∧ IrOps.back_i32 b = .fast (narrowToInt true b) ∧
+    IrOps.back_i16 c = .fast (narrowToInt true c) ∧ IrOps.back_u8 d = .fast (narrowToInt false d) :=
+  ⟨rfl, rfl, rfl, rfl⟩
+
+theorem ir_u8 (a b : BitVec 8) :
+    IrOps.fdiv_u8 a b = u8Divide a b ∧ IrOps.mod_u8 a b = u8Mod a b ∧
+    IrOps.add_u8 a b = .fast (intOp false .add a b) ∧ IrOps.sub_u8 a b = .fast (intOp false .sub a b) ∧
+    IrOps.mul_u8 a b = .fast (intOp false .mul a b) ∧ IrOps.rsh_u8 a b = .fast (intOp false .shr a b) ∧
+    IrOps.neg_u8 a = .fast (FixedWidth.neg a) ∧ IrOps.inv_u8 a = .fast (invert a) ∧
+    IrOps.lt_u8 a b = .fast (BitVec.ult a b) ∧ IrOps.ge_u8 a b = .fast (BitVec.ule b a) := by
+  refine ⟨rfl, rfl, rfl, rfl, rfl, rfl, rfl, ?_, rfl, rfl⟩
+  simp [IrOps.inv_u8, invert]
+
+theorem ir_i32_i16 (a b : BitVec 32) (c d : BitVec 16) :
+    IrOps.add_i32 a b = .fast (intOp true .add a b) ∧ IrOps.mul_i32 a b = .fast (intOp true .mul a b) ∧
+    IrOps.rsh_i32 a b = .fast (intOp true .shr a b) ∧ IrOps.neg_i32 a = .fast (FixedWidth.neg a) ∧
+    IrOps.le_i32 a b = .fast (BitVec.sle a b) ∧
+    IrOps.add_i16 c d = .fast (intOp true .add c d) ∧ IrOps.sub_i16 c d = .fast (intOp true .sub c d) ∧
+    IrOps.mul_i16 c d = .fast (intOp true .mul c d) ∧ IrOps.inv_i16 c = .fast (invert c) ∧
+    IrOps.gt_i16 c d = .fast (BitVec.slt d c) := by
+  refine ⟨rfl, rfl, rfl, rfl, rfl, rfl, rfl, rfl, ?_, rfl⟩
+  simp [IrOps.inv_i16, invert]
+
+theorem ir_fdiv_narrow (a b : BitVec 32) (c d : BitVec 16) :
+    IrOps.fdiv_i32 a b = CPyInt32_Divide a b ∧ IrOps.mod_i32 a b = CPyInt32_Remainder a b ∧
+    IrOps.fdiv_i16 c d = CPyInt16_Divide c d ∧ IrOps.mod_i16 c d = CPyInt16_Remainder c d := by
+  refine ⟨?_, ?_, ?_, ?_⟩
+  · unfold IrOps.fdiv_i32; rw [int32_divide_eq]
+    by_cases hz : b.toInt = 0
+    · simp [hz]
+    · by_cases ho : b.toInt = -1 ∧ a.toInt = -2147483648
+      · simp [hz, ho]
+      · simp [hz, ho]
+  · unfold IrOps.mod_i32; rw [int32_remainder_eq]
+    by_cases hz : b.toInt = 0 <;> simp [hz]
+  · unfold IrOps.fdiv_i16; rw [int16_divide_eq]
+    by_cases hz : d.toInt = 0
+    · simp [hz]
+    · by_cases ho : d.toInt = -1 ∧ c.toInt = -32768
+      · simp [hz, ho]
+      · simp [hz, ho]
+  · unfold IrOps.mod_i16; rw [int16_remainder_eq]
+    by_cases hz : d.toInt = 0 <;> simp [hz]
+
+theorem ir_inline_narrow (a : BitVec 32) (c : BitVec 16) :
+    IrOps.fdiv_i32_c7 a = .fast (inlineDivide a 7#32) ∧ IrOps.mod_i32_cm7 a = .fast (inlineMod a (-7#32)) ∧
+    IrOps.fdiv_i16_c3 c = .fast (inlineDivide c 3#16) ∧ IrOps.mod_i16_cm3 c = .fast (inlineMod c (-3#16)) := by
+  have e1 : (-7#32 : BitVec 32) = 4294967289#32 := by decide
+  have e2 : (-3#16 : BitVec 16) = 65533#16 := by decide
+  rw [e1, e2]
+  refine ⟨?_, ?_, ?_, ?_⟩ <;>
+    simp only [IrOps.fdiv_i32_c7, IrOps.mod_i32_cm7, IrOps.fdiv_i16_c3, IrOps.mod_i16_cm3, inlineDivide, inlineMod,
+      apply_ite Res.fast]
 
 /-! ## `int / int` and `int <op> float`: where the compiled code is *not* exact (findings F24, F25)
 
